@@ -28,9 +28,16 @@ LEVEL_TEXT = ("Coq theorems over (a) a world model {python stream, numpy stream,
               "and the legacy set GA, all repaired: their former root causes are proved explicit-only without exception, with regression "
               "witnesses about the former code), no function of the package reaches OS entropy, every function that accepts rng is explicit-only "
               "up to the named root causes of the findings that remain known (memetic mutation operators, helpers without an rng parameter, deap's "
-              "selTournamentDCD); (c) a bit-exact MT19937 model of prng.seed/spawn. The model is tied "
+              "selTournamentDCD), no function snapshots a generator (copy/deepcopy/pickle/get_state of a generator reference); (c) a bit-exact MT19937 "
+              "model of prng.seed/spawn whose argument, bounds, count, guard and default expressions are REGENERATED from prng.py (Gen/C08_Kernel.v) and "
+              "proved equal to the hand model, with range theorems about the generated expressions (numpy's seed <= 2^32-1, spawn seeds <= 2^sbits-1, "
+              "exactly the negative counts are refused, the pymoo seed of all 13 minimize() sites is an unsigned 32-bit function of the optimiser's draw); "
+              "(d) an object/copy world model: reproducibility after seeding and isolation of explicit generators survive programs with copies of "
+              "components (copies share the generator; a copy is observationally its source), snapshot copies and a setter that leaves a part on the old "
+              "generator are refuted. The model is tied "
               "to the code by evaluating it inside Coq against the implementation (seed/spawn states bit for bit; observed stream "
-              "movements and reproducibility of every stochastic API against the static footprints)")
+              "movements and reproducibility of every stochastic API against the static footprints; components obtained through copy.copy / copy.deepcopy / "
+              ".copy() / .deepcopy() / the rng setter, before or after the seeding, compared with the same program without copies)")
 LEVEL_NOTE = ("trusted: Coq kernel + vm_compute; the ast translator (over-approximating reference graph: attribute access on objects of "
               "unknown class is linked to every member of that name; methods invoked implicitly by operators are checked separately "
               "to be source-free); hand-entered third-party facts (pymoo 0.6.2 minimize() seeds default_rng(seed), None without a seed argument, "
@@ -44,8 +51,16 @@ RULE = ("case kinds from one PRNG: seedmodel (seed in boundary set {0,1,2^32-1,2
         "configuration classes, spawn, apply_jitter, EMBV, every optimiser, selection protocols of all four decision-space kinds (deterministic and "
         "default optimisers, 1 and 2 objectives, mate protocols with the optimisation stubbed), the four random selection protocols, "
         "Generalized1NormGenomicSelection, OptimalContribution problem construction on a singular relationship matrix; non-trivial = the component consumed randomness "
-        "(some stream moved); distinct by SHA-256 of the case")
+        "(some stream moved); distinct by SHA-256 of the case. "
+        "Object lifecycle: every object component (mating, phenotyping, selection protocols/configurations, optimisers) is also obtained through a copy route "
+        "(all of __copy__/__deepcopy__/copy()/deepcopy() with and without memo, chains, for classes that define them; python's default shallow copy for the others; "
+        "the rng property setter) and/or constructed BEFORE the seeding / stream perturbation, then used; a third reference run executes the same program without "
+        "copies from the same seed / generator state: outputs, final global streams and final generator state must coincide. python's default deep copy and the "
+        "rng setter of protocols with default optimisers are exercised and classified as known findings. Seed model: spawn requests incl. negative counts (refused), "
+        "sbits omitted (default). Fail-closed audit by introspection: all 117 classes/functions/methods accepting rng are executed by a component, inherit "
+        "select() from an executed family base (checked), or are skipped with a reason; copy methods of stochastic classes must match the lifecycle table")
 TRUSTED = ["harness/translate/c08_entropy.py (ast translator, fail closed on unclassified references to entropy-bearing modules)",
+           "harness/translate/c08_kernel.py (kernel expressions of prng.seed / prng.spawn / minimize(seed=...) located by statement shape, fail closed; python int() on a non-negative rational = floor)",
            "pymoo 0.6.2 Algorithm.setup: random_state = default_rng(seed), seed None unless passed to minimize(): OS entropy iff a minimize() call site passes no seed (entered by hand, checked syntactically at every call site, cross-checked dynamically)",
            "pymoo 0.6.2 operators receive random_state = the algorithm's generator (Operator.do / Mating.do): a pybrops operator that reads random_state from its "
            "keyword arguments draws from the generator seeded by minimize(seed=...) (entered by hand, cross-checked dynamically by the isolation runs of the subset optimisers)",
@@ -478,13 +493,22 @@ ROUTES = {"copy": copy.copy, "deepcopy": copy.deepcopy, "mcopy": lambda o: o.cop
           "deepcopy_memo": lambda o: copy.deepcopy(o, {}), "mdeepcopy_memo": lambda o: o.deepcopy({})}
 LIFE = {"ctor": [], "copy": ["copy"], "deepcopy": ["deepcopy"], "mcopy": ["mcopy"], "mdeepcopy": ["mdeepcopy"], "deepcopy_memo": ["deepcopy_memo"],
         "mdeepcopy_memo": ["mdeepcopy_memo"], "deepcopy+copy": ["deepcopy", "copy"], "mcopy+mdeepcopy": ["mcopy", "mdeepcopy"],
-        "copy+copy": ["copy", "copy"]}
+        "copy+copy": ["copy", "copy"],
+        # the generator arrives through the property setter: constructed on a throw-away generator, then `obj.rng = <the generator>`
+        # (None = the global stream); must behave as if constructed with it
+        "setter": ["setter"], "setter+copy": ["setter", "copy"], "setter+mdeepcopy": ["setter", "mdeepcopy"]}
 # classes that define copy routes of their own (the library says what a copy is): component -> (class path, routes, table names).
 # Verified by introspection in audit_entry_points(): a stochastic class that gains / loses a copy method must be reclassified here.
 OWN_COPY = {"G_E_Phenotyping": ("pybrops.breed.prot.pt.G_E_Phenotyping.G_E_Phenotyping", ("__copy__", "__deepcopy__", "copy", "deepcopy"),
                                 ["breed.prot.pt.G_E_Phenotyping.G_E_Phenotyping.__copy__", "breed.prot.pt.G_E_Phenotyping.G_E_Phenotyping.__deepcopy__"])}
 LIFE_OWN = [k for k in LIFE if k != "ctor"]                      # every route
-LIFE_DEFAULT_OK = ["copy", "copy+copy"]                          # python's default shallow copy shares the attributes: must behave as the source
+LIFE_DEFAULT_OK = ["copy", "copy+copy", "setter", "setter+copy"]      # python's default shallow copy shares the attributes: must behave as the source
+# the constructor of a selection configuration samples a first configuration: an object that received its generator later is at another
+# position of the stream than one constructed with it - no reference behaviour to compare the setter route with
+NO_SETTER = lambda c: c.endswith("Cfg")
+# selection protocols that build default optimisers from the constructor's generator: `prot.rng = g` leaves them on the OLD generator
+# (known finding C08-selprot-rng-setter-stale-optimiser); exercised separately and classified
+SETTER_STALE = ("SelProtSubsetGA", "SelProtSubsetMO", "SelProtReal", "SelProtRealMO", "SelProtBinary", "SelProtBinaryMO", "SelProtInteger", "SelProtIntegerMO")
 LIFE_DEFAULT_DEEP = ["deepcopy", "deepcopy_memo", "deepcopy+copy"]     # python's default deep copy duplicates the generator: known finding
 
 def _life_kind(step):
@@ -496,8 +520,14 @@ def _life_kind(step):
 
 def _obtain(step, rng):
     comp = step["comp"]
-    obj = COMPONENTS[comp][3](step.get("par", {}), rng)
-    for r in LIFE[step.get("life", "ctor")]: obj = ROUTES[r](obj)
+    routes = list(LIFE[step.get("life", "ctor")])
+    if routes[:1] == ["setter"]:
+        obj = COMPONENTS[comp][3](step.get("par", {}), numpy.random.Generator(numpy.random.PCG64(987654321)))
+        obj.rng = rng
+        routes = routes[1:]
+    else:
+        obj = COMPONENTS[comp][3](step.get("par", {}), rng)
+    for r in routes: obj = ROUTES[r](obj)
     return obj
 
 def _obtain_pre(prog, rng):
@@ -511,7 +541,9 @@ def _ref_prog(prog):
     """the same program with every object straight from its constructor (made at the same time as in the program)"""
     out = []
     for s in prog:
-        s = dict(s); s.pop("life", None); out.append(s)
+        s = dict(s)
+        if s.pop("life", "ctor").startswith("setter"): s["par"] = dict(s.get("par", {}), _pre=True)     # (same observables as the setter step)
+        out.append(s)
     return out
 
 # ---------------------------------------------------------------------------------------------- driver
@@ -552,9 +584,9 @@ def _run_prog(prog, rng, pre=None):
     outs = []
     for i, step in enumerate(prog):
         par = step.get("par", {})
-        if "life" in step or step.get("pre"):
+        if "life" in step or step.get("pre") or par.get("_pre"):
             obj = pre[i] if (pre is not None and i in pre) else _obtain(step, rng)
-            if step.get("pre"): par = dict(par, _pre=True)
+            if step.get("pre") or step.get("life", "ctor").startswith("setter"): par = dict(par, _pre=True)
             outs.append(COMPONENTS[step["comp"]][4](obj, par))
         else:
             outs.append(COMPONENTS[step["comp"]][2](par, rng))
@@ -640,7 +672,7 @@ def _rand_hist(rng, heavy=False):
         elif k in ("seed", "npseed", "pyseed"): h.append([k, rng.randint(0, 2 ** 32 - 1)])
         elif k == "life":
             c = rng.choice(LIFE_COMPS)
-            h.append([k, c, {}, rng.choice(LIFE_OWN if c in OWN_COPY else LIFE_DEFAULT_OK)])
+            h.append([k, c, {}, rng.choice(LIFE_OWN if c in OWN_COPY else LIFE_DEFAULT_OK[:2])])
         else: h.append([k, rng.choice(CLEAN_RNG + GLOBAL_ONLY)])
     return h
 
@@ -714,8 +746,12 @@ def gen_cases(rng, tier):
     def iso_case(prog):
         return {"kind": "isolated", "rngkind": rng.choice(["Generator", "RandomState", "MT"]), "rseed": rng.getrandbits(31), "skip": rng.choice([0, 0, 3]),
                 "h1": _rand_hist(rng), "h2": [["py", rng.randint(1, 30)], ["np", rng.randint(1, 30)]] + _rand_hist(rng), "prog": prog}
+    def ok_lives(c):
+        return LIFE_OWN if c in OWN_COPY else [l for l in LIFE_DEFAULT_OK if not (l.startswith("setter") and (NO_SETTER(c) or c in SETTER_STALE))]
+    for comp in LIFE_COMPS:           # constructed BEFORE the seeding (rng = None), used after it
+        cases.append(repro_case([{"comp": comp, "par": _rand_par(rng, comp), "pre": True}]))
     for comp in LIFE_COMPS:
-        lives = LIFE_OWN if comp in OWN_COPY else LIFE_DEFAULT_OK
+        lives = ok_lives(comp)
         for rep in range((1 if quick else 3) if comp not in OWN_COPY else 1):
             for life in (lives if comp in OWN_COPY else [rng.choice(lives)]):
                 for pre in ((True, False) if comp in OWN_COPY else (rng.choice([True, False]),)):
@@ -726,7 +762,7 @@ def gen_cases(rng, tier):
         prog = []
         for _ in range(k):
             c = rng.choice(list(OWN_COPY) * 3 + LIFE_COMPS)
-            if rng.random() < 0.75: prog.append(life_step(c, rng.choice(LIFE_OWN if c in OWN_COPY else LIFE_DEFAULT_OK), rng.random() < 0.5))
+            if rng.random() < 0.75: prog.append(life_step(c, rng.choice(ok_lives(c)), rng.random() < 0.5))
             else: prog.append({"comp": c, "par": _rand_par(rng, c)})
         cases.append(repro_case(prog) if rng.random() < 0.6 else iso_case(prog))
     # python's default deep copy of a component without a __deepcopy__ of its own duplicates the generator (known finding)
@@ -734,6 +770,9 @@ def gen_cases(rng, tier):
         c = rng.choice([x for x in LIFE_COMPS if x not in OWN_COPY and x not in GA_COMPS and not x.startswith("SelProt")])
         prog = [life_step(c, rng.choice(LIFE_DEFAULT_DEEP), True)]
         cases.append(repro_case(prog, False)); cases.append(iso_case([life_step(c, rng.choice(LIFE_DEFAULT_DEEP), rng.random() < 0.5)]))
+    # the rng setter of a selection protocol with default optimisers (known finding)
+    for c in (rng.sample(SETTER_STALE, 3) if quick else SETTER_STALE):
+        cases.append(iso_case([life_step(c, "setter", False)])); cases.append(repro_case([life_step(c, "setter", rng.random() < 0.5)], False))
     rng.shuffle(cases)          # spread the heavy seed-model cases over the shards
     return cases
 
@@ -863,6 +902,15 @@ def classify(case, out, clauses):
                  "stream differs at the end of the seeded program")
         if all(any(m in c for m in marks) for c in clauses): return "C08-default-deepcopy-snapshots-rng"
         return None
+    # `prot.rng = g` on a selection protocol whose default optimisers were built from the constructor's generator
+    stale = [i for i, s in enumerate(case["prog"]) if s.get("life", "ctor").startswith("setter") and s["comp"] in SETTER_STALE]
+    if stale:
+        if not clauses or any(c in GA_MEMETIC + DEAP_COMPS + NO_RNG_HELPER_COMPS for c in comps): return None
+        if any("python's global" in c for c in clauses): return None
+        if steps and min(steps) < stale[0]: return None
+        marks = ("does not behave as its source", "does not consume the supplied generator")
+        if all(any(m in c for m in marks) for c in clauses): return "C08-selprot-rng-setter-stale-optimiser"
+        return None
     if case["kind"] == "repro":
         return None                     # after seeding everything must be reproducible (C08-ga-os-entropy is fixed)
     # isolated: exactly one kind of culprit in the program
@@ -923,6 +971,122 @@ def shrink(case, fails):
             if fails(t): cur = t
     return cur
 
+# ---------------------------------------------------------------------------------------------- entry-point audit (fail closed)
+# Every class whose constructor accepts rng and every function / method with an rng parameter, found by introspection of the
+# imported package on every run, must be classified: executed by a component of this module (ENTRY_COVERED), skipped with a
+# reason (ENTRY_SKIPPED), or - for the concrete selection protocols - verified to inherit select()/sosolve()/mosolve()/rng from one
+# of the eight family bases (which ARE executed) and to add only a deterministic problem() factory (covered statically by
+# C08_rng_components_explicit_partial).  A new entry point makes the check fail until it is classified here.
+_P = "pybrops."
+ENTRY_COVERED = {}
+for _c in ("TwoWayCross", "TwoWayDHCross", "ThreeWayCross", "ThreeWayDHCross", "FourWayCross", "FourWayDHCross", "SelfCross"):
+    ENTRY_COVERED["breed.prot.mate.%s.%s" % (_c, _c)] = [_c]
+for _f in ("mat_dh", "mat_mate", "mat_meiosis"):
+    ENTRY_COVERED["breed.prot.mate.util." + _f] = ["TwoWayCross", "TwoWayDHCross", "SelfCross"]
+for _f in ("dense_cross", "dense_dh", "dense_meiosis"):
+    ENTRY_COVERED["core.util.mate." + _f] = ["TwoWayCross", "TwoWayDHCross", "SelfCross"]
+ENTRY_COVERED["breed.prot.pt.G_E_Phenotyping.G_E_Phenotyping"] = ["G_E_Phenotyping"]
+ENTRY_COVERED.update({"core.random.sampling.axis_shuffle": ["axis_shuffle"], "core.random.sampling.outcross_shuffle": ["outcross_shuffle"],
+                      "core.random.sampling.stochastic_universal_sampling": ["sus", "sus2d"],
+                      "core.random.sampling.tiled_choice": ["tiled_choice_norepl", "tiled_choice_repl"]})
+for _k in ("Subset", "Binary", "Integer", "Real"):
+    ENTRY_COVERED["breed.prot.sel.cfg.%sSelectionConfiguration.%sSelectionConfiguration" % (_k, _k)] = [_k + "Cfg"]
+    ENTRY_COVERED["breed.prot.sel.cfg.%sMateSelectionConfiguration.%sMateSelectionConfiguration" % (_k, _k)] = [_k + "MateCfg"]
+    ENTRY_COVERED["breed.prot.sel.%sSelectionProtocol.%sSelectionProtocol" % (_k, _k)] = ["SelProt" + _k, "SelProt%sMO" % _k]
+    ENTRY_COVERED["breed.prot.sel.%sMateSelectionProtocol.%sMateSelectionProtocol" % (_k, _k)] = ["MateSelProt" + _k, "MateSelProt%sMO" % _k]
+    ENTRY_COVERED["breed.prot.sel.EstimatedBreedingValueSelection.EstimatedBreedingValue%sSelection" % _k] = ["SelProt" + _k]
+    ENTRY_COVERED["breed.prot.sel.RandomSelection.Random%sSelection" % _k] = ["RandomSelProt" + ("" if _k == "Subset" else _k)]
+    ENTRY_COVERED["breed.prot.sel.prob.RandomSelectionProblem.Random%sSelectionProblem.from_object" % _k] = ["RandomSelProt" + ("" if _k == "Subset" else _k)]
+ENTRY_COVERED["breed.prot.sel.prob.RandomSelectionProblem.RandomSelectionProblemMixin.from_object"] = ["RandomSelProt"]
+ENTRY_COVERED["breed.prot.sel.SelectionProtocol.SelectionProtocol"] = ["SelProtSubset"]
+ENTRY_COVERED["breed.prot.sel.MateSelectionProtocol.MateSelectionProtocol"] = ["MateSelProtSubset"]
+ENTRY_COVERED["breed.prot.sel.OptimalContributionSelection.OptimalContributionSubsetSelection"] = ["OCSProblem"]
+ENTRY_COVERED["breed.prot.sel.UnconstrainedGeneralized1NormGenomicSelection.Generalized1NormGenomicSelection"] = ["G1NormSel"]
+for _comp, _v in (("SubsetGA", "SubsetGeneticAlgorithm"), ("BinaryGA", "BinaryGeneticAlgorithm"), ("IntegerGA", "IntegerGeneticAlgorithm"),
+                  ("RealGA", "RealGeneticAlgorithm"), ("NSGA2SubsetGA", "NSGA2SubsetGeneticAlgorithm"), ("NSGA2BinaryGA", "NSGA2BinaryGeneticAlgorithm"),
+                  ("NSGA2IntegerGA", "NSGA2IntegerGeneticAlgorithm"), ("NSGA2RealGA", "NSGA2RealGeneticAlgorithm"),
+                  ("NSGA3SubsetGA", "NSGA3SubsetGeneticAlgorithm"), ("HillClimber", "SteepestDescentSubsetHillClimber"),
+                  ("UnconSetGA", "UnconstrainedSetGeneticAlgorithm"), ("UnconNSGA2SetGA", "UnconstrainedNSGA2SetGeneticAlgorithm"),
+                  ("UnconHill", "UnconstrainedSteepestAscentSetHillClimber")):
+    ENTRY_COVERED["opt.algo.%s.%s" % (_v, _v)] = [_comp]
+for _comp, _v in (("MemeticA", "NSGA2MutatorASubsetGeneticAlgorithm"), ("MemeticB", "NSGA2MutatorBSubsetGeneticAlgorithm"),
+                  ("MemeticSteepest", "NSGA2SteepestDescentSubsetGeneticAlgorithm"), ("MemeticStochastic", "NSGA2StochasticDescentSubsetGeneticAlgorithm")):
+    ENTRY_COVERED["opt.algo.NSGA2MemeticSubsetGeneticAlgorithm." + _v] = [_comp]
+ENTRY_SKIPPED = {
+    "breed.prot.sel.UnconstrainedMultiObjectiveGenomicMating.MultiObjectiveGenomicMating":
+        "legacy unconstrained protocol (needs a variance-matrix factory and a genetic map function); its only use of the generator is to hand "
+        "self.rng to its default optimisers, which are executed as UnconHill / UnconNSGA2SetGA; covered statically (C08_rng_components_explicit_partial)",
+}
+FAMILY_BASES = tuple("%s%sSelectionProtocol" % (k, m) for k in ("Subset", "Binary", "Integer", "Real") for m in ("", "Mate"))
+UNIMPORTABLE_OK = ("pybrops.model.pmebvmat",)        # inconsistent MRO under this interpreter (no stochastic code; listed in DESIGN)
+COPY_METHODS = ("__copy__", "__deepcopy__", "copy", "deepcopy")
+
+def audit_entry_points():
+    import pkgutil, importlib, inspect, pybrops
+    found, classes, problems, unimportable = {}, {}, [], []
+    with warnings.catch_warnings():
+        warnings.simplefilter("ignore")
+        for m in pkgutil.walk_packages(pybrops.__path__, _P, onerror=lambda n: unimportable.append(n)):
+            if m.name.startswith("pybrops.test"): continue
+            try: mod = importlib.import_module(m.name)
+            except Exception: unimportable.append(m.name); continue
+            for nm, ob in list(vars(mod).items()):
+                if getattr(ob, "__module__", None) != m.name: continue
+                q = (m.name + "." + nm)[len(_P):]
+                if inspect.isclass(ob):
+                    try: has = "rng" in inspect.signature(ob.__init__).parameters
+                    except (TypeError, ValueError): has = False
+                    if has: found[q] = "class"; classes[q] = ob
+                    for mn, mo in list(vars(ob).items()):
+                        f = mo.__func__ if isinstance(mo, (classmethod, staticmethod)) else mo
+                        if inspect.isfunction(f) and mn != "__init__":
+                            try:
+                                if "rng" in inspect.signature(f).parameters: found[q + "." + mn] = "method"
+                            except (TypeError, ValueError): pass
+                elif inspect.isfunction(ob):
+                    try:
+                        if "rng" in inspect.signature(ob).parameters: found[q] = "function"
+                    except (TypeError, ValueError): pass
+    for n in unimportable:
+        if not n.startswith(UNIMPORTABLE_OK): problems.append("module %s cannot be imported: its entry points cannot be enumerated" % n)
+    inherited = []
+    for q, kind in sorted(found.items()):
+        if q in ENTRY_COVERED:
+            missing = [c for c in ENTRY_COVERED[q] if c not in COMPONENTS]
+            if missing: problems.append("%s: covering component(s) %s do not exist" % (q, missing))
+            continue
+        if q in ENTRY_SKIPPED: continue
+        ob = classes.get(q)
+        if ob is not None and q.startswith("breed.prot.sel.") and not inspect.isabstract(ob):
+            mro = list(ob.__mro__)
+            fam = [i for i, c in enumerate(mro) if c.__name__ in FAMILY_BASES and c.__module__.startswith("pybrops.breed.prot.sel.")]
+            if fam:
+                over = sorted({k for c in mro[:fam[0]] for k in ("select", "sosolve", "mosolve", "rng", "soalgo", "moalgo") if k in vars(c)})
+                if not over:
+                    inherited.append(q); continue
+                problems.append("%s overrides %s of its family base %s: not covered by the family's experiments - add a component or a reason" % (q, over, mro[fam[0]].__name__))
+                continue
+        problems.append("%s (%s accepting rng) is not classified: add a component (ENTRY_COVERED) or a reason (ENTRY_SKIPPED)" % (q, kind))
+    for q in list(ENTRY_COVERED) + list(ENTRY_SKIPPED):
+        if q not in found: problems.append("%s is classified but no longer exists / no longer accepts rng (stale entry)" % q)
+    # copy routes: which stochastic classes define copy methods of their own (anywhere in their pybrops MRO)
+    own = {}
+    for q, ob in classes.items():
+        r = tuple(k for k in COPY_METHODS if any(k in vars(c) for c in ob.__mro__ if c.__module__.startswith("pybrops")))
+        if r: own[_P + q] = r
+    want = {v[0]: tuple(v[1]) for v in OWN_COPY.values()}
+    for q in sorted(set(own) | set(want)):
+        if own.get(q) != want.get(q):
+            problems.append("copy routes of %s are %s, the lifecycle table OWN_COPY says %s: reclassify (every route of a stochastic class must be exercised)"
+                            % (q, own.get(q), want.get(q)))
+    for c in OWN_COPY:
+        if c not in OBJ_COMPS: problems.append("OWN_COPY component %s is not an object component" % c)
+    if problems:
+        raise RuntimeError("entry-point audit: " + " || ".join(problems[:8]) + (" || ... %d more" % (len(problems) - 8) if len(problems) > 8 else ""))
+    return {"audit": "entry points accepting rng", "found": len(found), "executed_by_components": sum(1 for q in found if q in ENTRY_COVERED),
+            "inherit_family_select": len(inherited), "skipped_with_reason": sorted(ENTRY_SKIPPED), "classes_with_own_copy_routes": sorted(own),
+            "unimportable_modules": sorted(set(unimportable))}
+
 def translate(repo, gen_dir):
     import os
     import translate.c08_entropy as T
@@ -932,4 +1096,4 @@ def translate(repo, gen_dir):
     info["translator_selftest_assertions"] = n
     # kernel expressions of prng.seed / prng.spawn / the pymoo seeds (Gen/C08_Kernel.v); fail closed
     from translate import c08_kernel
-    return [info, c08_kernel.translate(repo, gen_dir)]
+    return [info, c08_kernel.translate(repo, gen_dir), audit_entry_points()]
